@@ -11,6 +11,7 @@ import (
 	"go/token"
 	"go/types"
 	"os"
+	"sort"
 	"strings"
 
 	"golang.org/x/tools/go/ssa"
@@ -384,6 +385,7 @@ func (w *World) callOrder(id string, opts *RunOpts, ex *Extra) {
 	w.flowClauses(id, opts, ex)
 	w.argFrom(id, opts, ex)
 	w.guarded(id, opts, ex)
+	w.fieldFrom(id, opts, ex)
 	for _, c := range w.specs.Contracts {
 		if !hasTag(c.Props, id) {
 			continue
@@ -477,4 +479,141 @@ func ifi0(ifi *ssa.If, ok bool) (*ssa.BinOp, bool) {
 	}
 	bo, isB := ifi.Cond.(*ssa.BinOp)
 	return bo, isB
+}
+
+// fieldFrom: `field-from <Struct>.<Field> <src> <src>…` — the values the function
+// stores into that field of a local struct come from exactly the listed sources:
+// `map:G` (a lookup in the map built from flag variable G by
+// stringSliceToStringMap) or `global:G` (the package variable G itself). A
+// per-schema setting must fall back to its default: a field with a map source
+// and no global source silently stays empty for ids the map does not list.
+func (w *World) fieldFrom(id string, opts *RunOpts, ex *Extra) {
+	for _, c := range w.specs.Contracts {
+		if !hasTag(c.Props, id) {
+			continue
+		}
+		for _, cl := range c.Clauses {
+			if cl.Kind != "field-from" {
+				continue
+			}
+			f := strings.Fields(cl.Raw)
+			if len(f) < 2 || !strings.Contains(f[0], ".") {
+				continue
+			}
+			dot := strings.Index(f[0], ".")
+			stName, field := f[0][:dot], f[0][dot+1:]
+			want := map[string]bool{}
+			for _, x := range f[1:] {
+				want[x] = true
+			}
+			name := fmt.Sprintf("%s/field-from:%s", c.Func, f[0])
+			fn := w.findFunc(c)
+			ex.Count++
+			if fn == nil {
+				ex.Lines = append(ex.Lines, "UNDECIDED: "+c.Func+" not found; "+name+" is not checked")
+				ex.Discharged++
+				continue
+			}
+			got := map[string]bool{}
+			for _, b := range fn.Blocks {
+				for _, ins := range b.Instrs {
+					st, ok := ins.(*ssa.Store)
+					if !ok {
+						continue
+					}
+					fa, ok := st.Addr.(*ssa.FieldAddr)
+					if !ok {
+						continue
+					}
+					pt, ok := fa.X.Type().Underlying().(*types.Pointer)
+					if !ok {
+						continue
+					}
+					named, ok := pt.Elem().(*types.Named)
+					if !ok || named.Obj().Name() != stName {
+						continue
+					}
+					sst := named.Underlying().(*types.Struct)
+					if sst.Field(fa.Field).Name() != field {
+						continue
+					}
+					got[valueSource(st.Val)] = true
+				}
+			}
+			var bad []string
+			for x := range want {
+				if !got[x] {
+					bad = append(bad, "no store from "+x)
+				}
+			}
+			for x := range got {
+				if !want[x] {
+					bad = append(bad, "a store from "+x)
+				}
+			}
+			sort.Strings(bad)
+			switch {
+			case len(got) == 0:
+				ex.Lines = append(ex.Lines, fmt.Sprintf("UNDECIDED: %s: no store to %s found in %s any more", name, f[0], c.Func))
+				ex.Discharged++
+			case len(bad) > 0:
+				msg := fmt.Sprintf("%s is set from {%s}, the contract says {%s}: %s", f[0], strings.Join(sortedKeysOf(got), ", "), strings.Join(sortedKeysOf(want), ", "), strings.Join(bad, "; "))
+				path := writeTextReplay(opts, id, name, msg+"\n(abstract-mode data-flow obligation over go/ssa)", "", "", "bin/govc check "+id)
+				ex.Lines = append(ex.Lines, fmt.Sprintf("VIOLATION property=%s replay=%s no-failing-input-found", id, path))
+				ex.Lines = append(ex.Lines, "  failed obligation: "+name+": "+msg)
+				ex.Violations++
+			default:
+				ex.Discharged++
+			}
+		}
+	}
+}
+
+func sortedKeysOf(m map[string]bool) []string {
+	var ks []string
+	for k := range m {
+		ks = append(ks, k)
+	}
+	sort.Strings(ks)
+	return ks
+}
+
+// valueSource classifies where a stored value comes from (see fieldFrom).
+func valueSource(v ssa.Value) string {
+	globalOf := func(x ssa.Value) string {
+		if u, ok := x.(*ssa.UnOp); ok && u.Op == token.MUL {
+			if g, ok := u.X.(*ssa.Global); ok {
+				return g.Name()
+			}
+		}
+		return ""
+	}
+	if g := globalOf(v); g != "" {
+		return "global:" + g
+	}
+	if ex, ok := v.(*ssa.Extract); ok {
+		v = ex.Tuple
+	}
+	if lk, ok := v.(*ssa.Lookup); ok {
+		m := lk.X
+		if u, ok := m.(*ssa.UnOp); ok && u.Op == token.MUL {
+			// a captured/escaped local: find the single store into it
+			if al, ok := u.X.(*ssa.Alloc); ok {
+				for _, r := range *al.Referrers() {
+					if st, ok := r.(*ssa.Store); ok && st.Addr == al {
+						m = st.Val
+					}
+				}
+			}
+		}
+		if ex, ok := m.(*ssa.Extract); ok {
+			if call, ok := ex.Tuple.(*ssa.Call); ok && len(call.Call.Args) >= 1 {
+				if g := globalOf(call.Call.Args[0]); g != "" {
+					return "map:" + g
+				}
+			}
+		}
+		return "map:?"
+	}
+	return "other:" + v.String()
 }
